@@ -19,6 +19,9 @@ func (x *Exec) step(fr *Frame, st *State, ins ssa.Instruction, cont func(*Frame,
 		ref := x.newRef(st, in.Comment)
 		p := &PtrV{Ref: ref, Elem: elem}
 		x.StoreTo(st, p, x.zeroValue(elem))
+		if typeKey(elem) == "math/big.Int" {
+			x.setBigVal(st, ref, IntConstI(0))
+		}
 		fr.vals[in] = p
 	case *ssa.BinOp:
 		a := x.operand(fr, st, in.X)
@@ -173,7 +176,7 @@ func (x *Exec) fieldAddr(st *State, p *PtrV, field int) *PtrV {
 	f := u.Field(field)
 	owner := structKey(named)
 	if _, isS := f.Type().Underlying().(*types.Struct); isS {
-		return &PtrV{Ref: x.nameTerm(st, x.subRef(p.Ref, owner, f.Name()), "sub"), Elem: f.Type()}
+		return &PtrV{Ref: x.nameTerm(st, x.subRefSt(st, p.Ref, owner, f.Name()), "sub"), Elem: f.Type()}
 	}
 	return &PtrV{Ref: p.Ref, Elem: f.Type(), Fld: &FieldLoc{Owner: owner, Name: f.Name(), Type: f.Type()}}
 }
